@@ -57,7 +57,7 @@ Verdict(e) ==
        ELSE IF SelectSeq(Records(out), LAMBDA r : r < 100) # Flat(inp) THEN "source1-order"
        ELSE IF SelectSeq(Records(out), LAMBDA r : r > 100 /\ r < 200) # Flat(in2) THEN "source2-order"
        ELSE IF SelectSeq(Records(out), LAMBDA r : r > 200) # Flat(in3) THEN "source3-order"
-       ELSE IF e.op = "files" /\ (1 + (e.w % 3)) = 1 /\ Records(out) # Flat(inp) \o Flat(in2) \o Flat(in3) THEN "file-order"
+       ELSE IF e.op = "files" /\ (1 + (e.w % 5)) = 1 /\ Records(out) # Flat(inp) \o Flat(in2) \o Flat(in3) THEN "file-order"
        ELSE "ok"
   ELSE "unknown-op"
 
